@@ -110,6 +110,10 @@ let comp_descstore : Registry.comp = fun params ->
        st := f';
        let s = int_of_z status in
        if s = 201 || s = 204 then "1" else "0"
+    | ["rwrace"; _] ->
+       (* readers take content and stamp from ONE version (read_description):
+          no served pair is foreign (C18_content_matches_tag) *)
+       "0"
     | ["syscalls"; _] ->
        let kind = function
          | DescStore.SCreate _ -> "create" | DescStore.SWrite _ -> "write"
